@@ -129,9 +129,14 @@ func mutate(r *rand.Rand, s string) string {
 		case 1: // insert nasty rune
 			k := r.Intn(len(rs) + 1)
 			rs = append(rs[:k:k], append([]rune{nastyRunes[r.Intn(len(nastyRunes))]}, rs[k:]...)...)
-		case 2: // replace
+		case 2: // replace: by a nasty rune, or by an alias of the character itself (same low byte / low 16 bits)
 			if len(rs) > 0 {
-				rs[r.Intn(len(rs))] = nastyRunes[r.Intn(len(nastyRunes))]
+				k := r.Intn(len(rs))
+				if r.Intn(3) == 0 {
+					rs[k] += []rune{0x100, 0x200, 0x300, 0xFF00, 0x10000, 0xFEE0, 0x20000}[r.Intn(7)]
+				} else {
+					rs[k] = nastyRunes[r.Intn(len(nastyRunes))]
+				}
 			}
 		case 3: // duplicate a chunk
 			if len(rs) > 1 {
@@ -240,6 +245,13 @@ func genFenStrings(o *Out, r *rand.Rand, thorough bool) {
 			if r.Intn(3) == 0 && len(rs) > 0 {
 				rs[len(rs)-1] = promos[r.Intn(len(promos))]
 			}
+		}
+		if r.Intn(5) == 0 && len(rs) > 0 {
+			// an alias of a valid character: the same low byte (or low 16 bits), another code point - a parser that narrows a
+			// rune before comparing it would take it for the ASCII character
+			k := r.Intn(len(rs))
+			rs[k] += []rune{0x100, 0x200, 0x300, 0xFF00, 0x10000, 0xFEE0, 0x20000}[r.Intn(7)]
+			o.Count("move:aliased-rune")
 		}
 		res := o.do("fen move " + runesHex(string(rs)))
 		o.Count("move:" + res[:2])
